@@ -28,7 +28,7 @@ Next == /\ l <= Len(Rec)
              \* exists), an invalid one is refused (another status, not a signal, no panic) before anything is written or printed
              [] ev.kind = "shape" ->
                 IF ev.valid
-                  THEN IF ev.rc \in {0, cfg.E} /\ ~ev.panicked /\ (ev.want_stats => ev.stats_exist) THEN TRUE
+                  THEN IF ev.rc \in {0, cfg.E} /\ ~ev.panicked /\ (ev.want_stats => ev.stats_exist) /\ (ev.want_template => ev.template_exist) THEN TRUE
                        ELSE Why("valid_shape_processed", "status 0 / -E value, statistics written", [rc |-> ev.rc, stats |-> ev.stats_exist, panicked |-> ev.panicked])
                   ELSE IF ev.rc \notin {0, 7} /\ ev.rc < 128 /\ ~ev.panicked /\ ~ev.outputs_exist THEN TRUE
                        ELSE Why("invalid_shape_refused", "refused before any output", [rc |-> ev.rc, outputs |-> ev.outputs_exist, panicked |-> ev.panicked])
